@@ -16,6 +16,7 @@ import os
 import re
 import sys
 import time
+import traceback
 
 HERE = os.path.dirname(os.path.dirname(os.path.abspath(__file__)))
 if HERE not in sys.path:
@@ -197,8 +198,16 @@ def main(argv=None):
     # what the deductive run covered (lemmas may depend on it: a frame lemma
     # accepts a store inside a function whose body was executed symbolically)
     prop.RUN_INFO = {'verified': list(funcs_ok), 'inlined': sorted(inlined)}
+    def _lemmas():
+        # a lemma that cannot be evaluated on this tree (the code it looks
+        # at is gone or raises) is undecided, the check does not crash
+        try:
+            yield from prop.lemmas()
+        except Exception as e:      # noqa
+            yield ('lemmas-could-not-be-evaluated', None,
+                   '%r\n%s' % (e, traceback.format_exc()[-800:]), False)
     if hasattr(prop, 'lemmas'):
-        for item in prop.lemmas():
+        for item in _lemmas():
             name, ok, detail = item[:3]
             observed = item[3] if len(item) > 3 else getattr(
                 prop, 'LEMMAS_ARE_OBSERVATIONS', True)
@@ -231,7 +240,31 @@ def main(argv=None):
     for f in getattr(prop, 'QUICK_BOUNDED', []):
         if os.environ.get('PYVC_NO_BOUNDED'):
             break
-        b = f(seed)
+        try:
+            b = f(seed)
+        except (NameError, AttributeError, ImportError) as e:
+            # the harness of the stand-in does not fit the code any more
+            # (a global it sets is gone, a function was moved): undecided
+            undecided.append('bounded stand-in %s does not fit the code: '
+                             '%r' % (f.__name__, e))
+            continue
+        except TypeError as e:
+            if 'argument' in str(e):
+                undecided.append('bounded stand-in %s does not fit the '
+                                 'code: %r' % (f.__name__, e))
+                continue
+            b = {'name': f.__name__, 'bounded': True, 'bound': 'aborted',
+                 'evaluations': 0, 'failures': [{
+                     'why': 'the real code raised %r' % (e,),
+                     'trace': traceback.format_exc()[-1500:]}]}
+        except Exception as e:      # noqa
+            # an exception that escapes the real code under the stand-in
+            # (the harness passes on the tree the contracts were written
+            # against)
+            b = {'name': f.__name__, 'bounded': True, 'bound': 'aborted',
+                 'evaluations': 0, 'failures': [{
+                     'why': 'the real code raised %r' % (e,),
+                     'trace': traceback.format_exc()[-1500:]}]}
         bounded.append(b)
         for fl in (b.get('failures') or [])[:3]:
             violations.append({'name': pid + ':bounded:' + b['name'],
